@@ -377,7 +377,7 @@ func (m *ImplCmd) execCmd(tk []string) (obs string) {
 			time.Sleep(20 * time.Millisecond)
 		}
 		t0 = time.Now().Unix()
-		err = cmd.Execute()
+		err = withSkewedLibraryClock(cmd.Execute)
 		t1 = time.Now().Unix()
 		if t0 == t1 || !readOnly {
 			break
@@ -578,7 +578,7 @@ func (m *ImplCmd) execGenerate(tk []string) (obs string) {
 		time.Sleep(20 * time.Millisecond)
 	}
 	t0 := time.Now().Unix()
-	err := c.Execute()
+	err := withSkewedLibraryClock(c.Execute)
 	t1 := time.Now().Unix()
 	if t0 != t1 {
 		os.Remove(path)
@@ -613,4 +613,17 @@ func (m *ImplCmd) genSpec(tk []string) (obs string) {
 		parts = append(parts, fmt.Sprintf("%d/%d/%d/%s", uint32(ts.FromTime()), uint32(ts.UntilTime()), int32(ts.Step()), valsStr(ts.Values())))
 	}
 	return "ok @append=series=" + strings.Join(parts, ";")
+}
+
+// withSkewedLibraryClock runs a command with the library's own clock (whispertool.Now, read
+// only when a call passes no instant) set to the second day of 1970.  Every command reads the
+// wall clock once and hands that instant to every library call it makes: nothing it does may
+// depend on a second reading.  In real use two readings differ only when a second boundary
+// falls between them; with the library clock decades away a command that lets the library
+// read the clock for itself gives itself away on every run.
+func withSkewedLibraryClock(run func() error) error {
+	saved := wt.Now
+	wt.Now = func() time.Time { return time.Unix(86400, 0) }
+	defer func() { wt.Now = saved }()
+	return run()
 }
